@@ -213,6 +213,70 @@ func c14Prefix(c *Ctx, p *Prog, db *dbModel) {
 	}
 }
 
+// recogniserConflicts: besides the key table, the input path recognises a few fixed sequences by
+// dedicated parsers that run after the key matcher: focus reports ESC [ I / ESC [ O.  If one of them
+// is a proper prefix of a key of the terminal, the key decodes differently when the read ends right
+// after the report (the key matcher says "partial", the focus parser says "complete").  Safe only if
+// the focus parser is not consulted while the key matcher reports a partial match.
+func recogniserConflicts(c *Ctx, p *Prog, db *dbModel, rule string) {
+	kt := buildKeyTables(c, p, db)
+	if kt == nil {
+		c.Undecided(rule, "key-table", "-", "the key table builder could not be constant-folded")
+		return
+	}
+	// is the focus parser held back while something earlier is partial?
+	heldBack := false
+	if collect := collectLoopFn(p); collect != nil {
+		for _, call := range callsIn(collect, func(n string, _ *ssa.CallCommon) bool { return strings.HasSuffix(n, "tScreen).parseFocus") }) {
+			// reached only through `partials == 0 || expire`
+			b := call.Block()
+			ok := len(b.Preds) > 0
+			for _, pr := range b.Preds {
+				if len(pr.Instrs) == 0 {
+					ok = false
+					continue
+				}
+				iff, isIf := pr.Instrs[len(pr.Instrs)-1].(*ssa.If)
+				if !isIf || pr.Succs[0] != b {
+					ok = false
+					continue
+				}
+				as := valName(iff.Cond)
+				if !(strings.Contains(as, "partials") || strings.Contains(as, "expire")) {
+					ok = false
+				}
+			}
+			heldBack = ok
+		}
+	}
+	fixed := map[string]string{"\x1b[I": "focus-in report", "\x1b[O": "focus-out report"}
+	nConf := 0
+	for _, e := range db.entries {
+		tab := kt.tables[e.Name]
+		if tab == nil {
+			continue
+		}
+		conf := ""
+		for seq := range tab.seqs {
+			for f, what := range fixed {
+				if len(seq) > len(f) && strings.HasPrefix(seq, f) {
+					conf += fmt.Sprintf("%s %q is a proper prefix of the key %q; ", what, f, seq)
+				}
+				if len(f) > len(seq) && strings.HasPrefix(f, seq) {
+					conf += fmt.Sprintf("key %q is a proper prefix of the %s; ", seq, what)
+				}
+			}
+		}
+		if conf != "" {
+			nConf++
+			c.Check(heldBack, rule, e.Name+":focus-report-vs-keys", p.pos(e.Pos), conf+fmt.Sprintf("the focus parser is held back while the key matcher is partial: %v", heldBack))
+		} else {
+			c.Trivial(rule, e.Name+":focus-report-vs-keys", p.pos(e.Pos), "no key shares a prefix with a focus report")
+		}
+	}
+	c.extra["entries_with_focus_prefix_conflict"] = nConf
+}
+
 // c14Ownership: stores to Terminfo fields only through fresh allocations or owned fields.
 func c14Ownership(c *Ctx, p *Prog) {
 	// owned struct fields of type *Terminfo: every store stores a fresh Alloc of the storing function
